@@ -324,6 +324,16 @@ def run_shard(spec, acc, ctx):
 
 
 def replay(case, acc, ctx):
+    if case.get("generations") or case.get("interrupted"):
+        # these witnesses are whole workloads on one long-lived object: run the workload again for that scheme
+        from props import _search_engine as eng
+        spec_ = {"schemes": [case["scheme"]], "rounds": 3, "generations": 80}
+        if case.get("generations"):
+            eng.run_generations(spec_, acc, ctx, "both", sig_prefix="history:")
+        else:
+            eng.run_interrupted(spec_, acc, ctx, "both", sig_prefix="history:")
+        acc.count("replayed")
+        return
     run_case(case["scheme"], case.get("cfg_id", "replay"), case["cfg"], case.get("db_class", "?"), case["db"], acc,
              ctx.rng)
     acc.count("replayed")
